@@ -10,6 +10,7 @@ C19 — line-protocol driver of the model (core only). State = the world (users,
   routes cfg=<lk><flux><pprof><ext>                              → sorted METHOD:pattern list of the live registrations
   route cfg=<lk><flux><pprof><ext> <METHOD> <path> db=<s> dbx=<database exists> u=<s> p=<s> h=<hdr> q=<stmts>
                                                                  → 401 fx=0 | 403 fx=0 | az fx=0 | 404 fx=0 | 405 fx=0 | pass | broken
+  bb … (same fields as route; a live server: no side-effect flag)  → 401 | 403 | az | 404 | 405 | pass | broken
 strings are hex (UTF-8), "-" = empty.  priv = 0..3.
 hdr   = - | basic:<u>:<p> | bearer:<parses><expOk>:<m|x|n<name>> | token:<s> | other
 stmts = - | stmt(;stmt)*     stmt = <Kind>,<target>,<priv(|priv)*>     priv = <admin><rwuser><0..3>.<dbname>
@@ -109,6 +110,10 @@ def showDecision : Decision → String
   | .d401 => "401 fx=0" | .d403 => "403 fx=0" | .dAz => "az fx=0" | .d404 => "404 fx=0" | .d405 => "405 fx=0"
   | .pass => "pass" | .broken => "broken"
 
+def showDecisionBare : Decision → String
+  | .d401 => "401" | .d403 => "403" | .dAz => "az" | .d404 => "404" | .d405 => "405"
+  | .pass => "pass" | .broken => "broken"
+
 def showAuth : AuthOutcome → String
   | .deny s => "deny " ++ toString s
   | .inner none => "inner nil"
@@ -167,6 +172,11 @@ def step (w : World) (line : String) : World × String :=
     match (kv "cfg" cfg).bind parseCfg with
     | some c => (w, liveList c)
     | none => (w, "bad-op")
+  | ["bb", cfg, method, path, db, dbx, u, p, h, q] =>
+    match (kv "cfg" cfg).bind parseCfg, unhex path, (kv "db" db).bind unhex, (kv "dbx" dbx).bind (fun x => x.toList.head?.bind bit),
+          parseReq u p h, (kv "q" q).bind parseStmts with
+    | some c, some path, some d, some dx, some r, some q => (w, showDecisionBare (decide w c method path r d dx q))
+    | _, _, _, _, _, _ => (w, "bad-op")
   | ["route", cfg, method, path, db, dbx, u, p, h, q] =>
     match (kv "cfg" cfg).bind parseCfg, unhex path, (kv "db" db).bind unhex, (kv "dbx" dbx).bind (fun x => x.toList.head?.bind bit),
           parseReq u p h, (kv "q" q).bind parseStmts with
